@@ -611,8 +611,35 @@ def f_eval(f, val):
 MAX_ATOMS = 16
 
 
+def f_norm(f):
+    """(EXISTS x.a) | (EXISTS x.b)  ==  EXISTS x.(a | b): merge sibling existentials over the same
+    binder so that loop summaries written with one or several `return True` sites (or split over
+    several guards) compare equal; dually for conjunctions of negated existentials"""
+    k = f[0]
+    if k == "not":
+        return f_not(f_norm(f[1]))
+    if k == "exists":
+        return ("exists", f[1], f_norm(f[2]))
+    if k in ("and", "or"):
+        parts = [f_norm(x) for x in f[1]]
+        groups, rest = {}, []
+        for p in parts:
+            if k == "or" and p[0] == "exists":
+                groups.setdefault(p[1], []).append(p[2])
+            elif k == "and" and p[0] == "not" and p[1][0] == "exists":
+                groups.setdefault(p[1][1], []).append(p[1][2])
+            else:
+                rest.append(p)
+        for b, bodies in groups.items():
+            ex = ("exists", b, f_norm(f_or(bodies)) if len(bodies) > 1 else bodies[0])
+            rest.append(ex if k == "or" else f_not(ex))
+        return f_or(rest) if k == "or" else f_and(rest)
+    return f
+
+
 def f_key(f):
     """canonical key of a formula: its essential atoms + truth table over them"""
+    f = f_norm(f)
     atoms = sorted(f_atoms(f))
     if len(atoms) > MAX_ATOMS:
         return "BIG:" + f_show(f)
@@ -645,6 +672,7 @@ def f_equiv(f, g):
 
 def f_implies(f, g):
     """f => g for all valuations of the union of atoms (atoms independent)"""
+    f, g = f_norm(f), f_norm(g)
     atoms = sorted(f_atoms(f) | f_atoms(g))
     if len(atoms) > MAX_ATOMS:
         return None
@@ -657,6 +685,7 @@ def f_implies(f, g):
 
 def f_counterexample(f, g):
     """a valuation on which f and g differ, as readable text"""
+    f, g = f_norm(f), f_norm(g)
     atoms = sorted(f_atoms(f) | f_atoms(g))
     if len(atoms) > MAX_ATOMS:
         return "too many atoms"
